@@ -121,6 +121,10 @@ int main(int argc, char** argv)
     CDNS::CdnsExporter writer(file_preamble, output_file, CDNS::CborOutputCompression::NO_COMPRESSION);
 
     for (auto input: input_files) {
+        // Skip inputs that were rejected when the File preambles were collected
+        if (block_indexes.find(input) == block_indexes.end())
+            continue;
+
         try {
             std::ifstream ifs(input, std::ifstream::binary);
             CDNS::CdnsReader reader(ifs);
